@@ -199,6 +199,12 @@ func FaultsInjected() int              { return 0 }
 func FSVisible(on bool)                {}
 func SetPid(n int)                     {}
 
+// Transcript records one line of a concrete cross-validation run (engine vs native build).
+var transcript []string
+
+func Transcript(line string) { mu.Lock(); transcript = append(transcript, line); mu.Unlock() }
+func TakeTranscript() []string { mu.Lock(); defer mu.Unlock(); t := transcript; transcript = nil; return t }
+
 // FSLog returns the model file system's operation log ("<pid> <op> <path> [content=..]"); native: empty.
 func FSLog() []string { return nil }
 
